@@ -9,7 +9,7 @@ PID = "C06"
 LEVEL = "proof"
 MODULE = "Sigc.Props.C06"
 EXTRA_MODULES = ("Sigc.Props.Refine", "Sigc.Props.SpecK",)   # refinement P ⊑ S', S' ≡ S on runs clear of the known findings
-REQUIRED = ["Sigc.Refine.refines", "Sigc.SpecK.model_refines_pure_spec"]
+REQUIRED = ["Sigc.C06.ownedG_named", "Sigc.Refine.refines", "Sigc.SpecK.model_refines_pure_spec"]
 TRUSTED = rt.TRUSTED_RT
 ASSUMPTIONS = rt.ASSUMPTIONS_RT + []
 PARTIAL = []
@@ -19,7 +19,7 @@ N_THOROUGH = 12000
 EXPLANATION = ''
 
 def profiles(thorough):
-    p = Profile(nT=3, nS=4, nG=3, nC=6, nK=3, specs={"fn": 3, "mem": 3, "trk": 3, "trk2": 1, "bref": 2, "nest": 2, "fwd": 2, "ownT": 2, "ownK": 2, "sc": 2},
+    p = Profile(nT=3, nS=4, nG=3, nC=6, nK=3, specs={"fn": 3, "mem": 3, "trk": 3, "trk2": 1, "bref": 2, "nest": 2, "fwd": 2, "ownT": 2, "ownK": 2, "ownG": 2, "sc": 2},
                 body_prob=0.15, len=(6, 25 if not thorough else 60), teardown_prob=1.0, prelude=8,
                 w={"newT": 5, "newG": 5, "mkS": 7, "conn": 7, "connfn": 7, "cpC": 3, "newK": 4, "cpG": 3, "cpS": 3, "relK": 1, "mvK": 1,
                    "delT": 1, "delS": 1, "delG": 1, "delC": 1, "delK": 1, "emit": 2})
